@@ -14,13 +14,19 @@
    minimize; fulfill returns before reading the reference when the constraint is a
    fulfilled elimination constraint.
 
-   [round_rel]: hence a round from two [eqr]-related stores that both satisfy
-   RoundPre, under two arbitrary schedules, ends in [eqr]-related stores. *)
+   [kp]: no engine operation allocates a constraint or changes the kind of one
+   (tracked along, so that the updates of fulfill, which write a constant kind,
+   are seen to preserve [eqr]).
+
+   [round_rel]: hence a round from two [eqr]-related stores, one of which satisfies
+   RoundPre, under two arbitrary schedules, ends in [eqr]-related stores
+   (lockstep to move the first store's schedule onto the second store's data, then
+   the one-round theorem [round_indep]). *)
 From Coq Require Import List Arith Bool Lia Permutation.
 Import ListNotations.
 From TF Require Import Base.Hier Base.Ty Infer.Store Infer.Engine Infer.Run
   Infer.Sched Infer.Inv Infer.SchedIndep
-  Infer.SchedIndepElimA Infer.SchedIndepElimR Infer.SchedIndepElim.
+  Infer.TermElim Infer.SchedIndepElimA Infer.SchedIndepElimR Infer.SchedIndepElim.
 
 Unset Implicit Arguments.
 
@@ -59,6 +65,24 @@ Lemma creq_eq k1 k2 : creq k1 k2 -> ~ (k_elim k1 = true /\ k_done k1 = true) -> 
 Proof.
   intros (A & B & C & D & [E|E]) N; [|contradiction].
   destruct k1, k2; cbn in *; congruence.
+Qed.
+
+Lemma creq_filt k1 k2 a : creq k1 k2 ->
+  creq (mkConstr true (k_ref k1) a (k_strict k1) (k_done k1)) (mkConstr true (k_ref k2) a (k_strict k2) (k_done k2)).
+Proof.
+  intros (A & B & C & D & [E|(E1 & E2)]); unfold creq; cbn; repeat split; auto.
+Qed.
+
+Lemma creq_mark k1 k2 : creq k1 k2 ->
+  creq (mkConstr true (k_ref k1) (k_alts k1) (k_strict k1) true) (mkConstr true (k_ref k2) (k_alts k2) (k_strict k2) true).
+Proof.
+  intros (A & B & C & D & E); unfold creq; cbn; repeat split; auto.
+Qed.
+
+Lemma creq_markS k1 k2 : creq k1 k2 -> k_elim k1 = false ->
+  creq (mkConstr false (k_ref k1) (k_alts k1) (k_strict k1) true) (mkConstr false (k_ref k2) (k_alts k2) (k_strict k2) true).
+Proof.
+  intros (A & B & C & D & [E|(E1 & E2)]) F; [|congruence]. unfold creq; cbn; repeat split; auto.
 Qed.
 
 Lemma eqr_refl s : eqr s s.
@@ -172,6 +196,22 @@ Proof.
   intros Rm Rk. unfold bindM. unfold CR in Rm.
   destruct (m s1) as [a s1'|e1 s1'], (m s2) as [b s2'|e2 s2']; try contradiction.
   - destruct Rm as (-> & E' & K1 & K2). eapply CR_start; [exact K1|exact K2|]. apply Rk; auto.
+  - exact Rm.
+Qed.
+
+Lemma CRm_bind {A B} c s1 s2 (m : M A) (k : A -> M B) :
+  match m s1, m s2 with
+  | MOk a t1, MOk b t2 => a = b /\ eqs t1 t2 /\ kp s1 t1 /\ kp s2 t2 /\ constr_of t1 c = constr_of t2 c
+  | MEr e1 _, MEr e2 _ => e1 = e2
+  | _, _ => False
+  end ->
+  (forall a t1 t2, eqs t1 t2 -> kp s1 t1 -> kp s2 t2 -> constr_of t1 c = constr_of t2 c ->
+     CR t1 t2 (k a t1) (k a t2)) ->
+  CR s1 s2 (bindM m k s1) (bindM m k s2).
+Proof.
+  intros Rm Rk. unfold bindM.
+  destruct (m s1) as [a s1'|e1 s1'], (m s2) as [b s2'|e2 s2']; try contradiction.
+  - destruct Rm as (-> & E' & K1 & K2 & Q). eapply CR_start; [exact K1|exact K2|]. apply Rk; auto.
   - exact Rm.
 Qed.
 
@@ -349,18 +389,159 @@ Proof.
     set (k := constr_of s1 c).
     match goal with |- CRm _ _ _ (bindM ?L ?K s1) _ => set (LOOP := L); set (REST := K) end.
     assert (CL : cong LOOP).
-    { subst LOOP. generalize (@nil tyv) as acc. generalize (k_alts k) as objs.
+    { subst LOOP.
+      match goal with |- cong (?F _ _) => assert (CO : forall objs acc, cong (F objs acc)); [|apply CO] end.
       induction objs as [|obj rest IHo]; intros acc; [apply cong_ret|].
       apply cong_bind.
-      - clear IHo. generalize true as add. generalize (@nil tyv) as pre.
-        induction acc as [|mi post IHi]; intros pre add; repeat cg_step; auto.
+      - clear IHo.
+        match goal with |- cong (?F _ _ _) =>
+          assert (CI : forall post pre add, cong (F pre post add)); [|apply CI] end.
+        induction post as [|mi post IHi]; intros pre add; repeat cg_step; auto.
       - intros [mins' add]. destruct add; repeat cg_step; auto. }
     unfold bindM. pose proof (CL s1 s2 E) as X. unfold CR in X.
     destruct (LOOP s1) as [mins t1|e1 t1], (LOOP s2) as [mins2 t2|e2 t2]; try contradiction; [|exact X].
     destruct X as (<- & E' & K1 & K2). subst REST. cbv beta. rewrite !bind_gets.
     unfold upd_constr, modify. cbn [CRm].
-    admit. }
+    pose proof E' as ((Ev & Ecs & El & Ed) & Esch). destruct (Ed c) as (D1 & D2 & D3 & D4 & _).
+    assert (Fo : forall t, follow t1 t = follow t2 t) by (apply follow_eqs; exact E').
+    rewrite (map_ext _ _ Fo), Fo, D1, D3, D4.
+    match goal with |- context [set_constr t2 c ?r] => set (k' := r) end.
+    split; [reflexivity|].
+    split; [apply (eqs_lift t1 t2); auto; apply eqr_set_constr; [apply E'|apply creq_refl]|].
+    split; [eapply kp_trans; [exact K1|apply kp_set_constr; cbn; congruence]|].
+    split; [eapply kp_trans; [exact K2|apply kp_set_constr; cbn; congruence]|].
+    unfold constr_of, set_constr; cbn. rewrite !nth_upd_gen, El, Nat.eqb_refl. cbn [andb].
+    destruct (Nat.ltb c (length (constrs t2))) eqn:Q; [reflexivity|].
+    apply Nat.ltb_ge in Q. rewrite !nth_overflow; auto; lia. }
+  assert (Hf : forall c, cong (fulfill H (S f) c)).
+  { intros c s1 s2 E. rewrite fulfill_S. rewrite !bind_gets.
+    pose proof E as ((_ & _ & _ & Ed) & _). pose proof (Ed c) as Kc.
+    destruct (k_elim (constr_of s1 c)) eqn:El1.
+    - assert (El2 : k_elim (constr_of s2 c) = true) by (destruct Kc as (A & _); congruence).
+      rewrite El2.
+      destruct (k_done (constr_of s1 c)) eqn:Dn1.
+      + assert (Dn2 : k_done (constr_of s2 c) = true) by (destruct Kc as (_ & _ & _ & A & _); congruence).
+        rewrite Dn2. apply cong_ret. exact E.
+      + assert (Dn2 : k_done (constr_of s2 c) = false) by (destruct Kc as (_ & _ & _ & A & _); congruence).
+        rewrite Dn2.
+        assert (Eq : constr_of s1 c = constr_of s2 c)
+          by (apply creq_eq; [exact Kc|intros (_ & X); congruence]).
+        apply (CRm_bind c); [apply IHm; auto|].
+        intros [] t1 t2 E1 K1 K2 Eq1. rewrite !bind_gets. rewrite <- Eq1.
+        set (k1 := constr_of t1 c).
+        match goal with |- CR _ _ ((if negb ?a then _ else _) _) ((if negb ?b then _ else _) _) =>
+          assert (Nm : a = b) by (unfold cell_of; rewrite (vars_eqs _ _ E1); reflexivity) end.
+        rewrite Nm. match goal with |- CR _ _ ((if ?a then _ else _) _) _ => destruct a end; [reflexivity|].
+        apply CR_bind.
+        { apply cong_lift; [|exact E1]. intros u1 u2 Eu.
+          induction (k_alts k1) as [|t r IH]; [reflexivity|].
+          rewrite (match_f_vars H f u1 u2 true true (k_ref k1) t (vars_eqs _ _ Eu)), IH. reflexivity. }
+        intros alts u1 u2 Eu Ku1 Ku2.
+        assert (Kl : forall u, kp t1 u -> k_elim (constr_of u c) = true)
+          by (intros u Ku; rewrite (proj2 Ku), (proj2 K1); exact El1).
+        assert (Kr : forall u, kp t2 u -> k_elim (constr_of u c) = true)
+          by (intros u Ku; rewrite (proj2 Ku), (proj2 K2); exact El2).
+        apply CR_bind.
+        { apply CR_upd_constr; [exact Eu|apply creq_filt; apply Eu|cbn; symmetry; auto|cbn; symmetry; auto]. }
+        intros [] w1 w2 Ew Kw1 Kw2.
+        pose proof (kp_trans _ _ _ Ku1 Kw1) as Kw1'. pose proof (kp_trans _ _ _ Ku2 Kw2) as Kw2'.
+        destruct alts as [|t [|t' r]].
+        * reflexivity.
+        * apply CR_bind.
+          { apply CR_upd_constr; [exact Ew|apply creq_mark; apply Ew|cbn; symmetry; auto|cbn; symmetry; auto]. }
+          intros [] x1 x2 Ex _ _. apply CR_bind; [apply IHu; exact Ex|].
+          intros [] y1 y2 Ey _ _. revert y1 y2 Ey. repeat cg_step.
+        * revert w1 w2 Ew Kw1 Kw2 Kw1' Kw2'. intros w1 w2 Ew _ _ _ _. revert w1 w2 Ew. repeat cg_step.
+    - assert (El2 : k_elim (constr_of s2 c) = false) by (destruct Kc as (A & _); congruence).
+      rewrite El2.
+      assert (Eq : constr_of s1 c = constr_of s2 c)
+        by (apply creq_eq; [exact Kc|intros (X & _); congruence]).
+      rewrite <- Eq. set (k := constr_of s1 c).
+      destruct (k_alts k) as [|target [|t' r']]; [reflexivity| |reflexivity].
+      apply CR_bind; [apply IHu; exact E|]. intros [] t1 t2 E1 K1 K2.
+      apply CR_bind; [apply cong_lift; [eqs_rd|exact E1]|]. intros r u1 u2 Eu Ku1 Ku2.
+      pose proof (kp_trans _ _ _ K1 Ku1) as Ku1'. pose proof (kp_trans _ _ _ K2 Ku2) as Ku2'.
+      destruct r as [[|]|].
+      + apply CR_bind.
+        { destruct (k_strict k); [apply cong_lift; [eqs_rd|exact Eu]|apply cong_ret; exact Eu]. }
+        intros same w1 w2 Ew Kw1 Kw2.
+        pose proof (kp_trans _ _ _ Ku1' Kw1) as Kw1'. pose proof (kp_trans _ _ _ Ku2' Kw2) as Kw2'.
+        destruct same as [[|]|].
+        * reflexivity.
+        * apply CR_bind.
+          { apply CR_upd_constr; [exact Ew|apply creq_markS; [apply Ew|]|cbn; symmetry|cbn; symmetry].
+            - rewrite (proj2 Kw1'). exact El1.
+            - rewrite (proj2 Kw1'). exact El1.
+            - rewrite (proj2 Kw2'). exact El2. }
+          intros [] x1 x2 Ex _ _. apply cong_ret; exact Ex.
+        * clear Kw1 Kw2 Kw1' Kw2'. revert w1 w2 Ew. repeat cg_step.
+      + reflexivity.
+      + clear Ku1 Ku2 Ku1' Ku2'. revert u1 u2 Eu. repeat cg_step. }
   repeat split; auto.
-Admitted.
+Qed.
+
+Theorem cong_all : forall f, congs f.
+Proof. induction f as [|f IH]; [apply congs_0|apply congs_step; exact IH]. Qed.
+
+Lemma cong_cc f v : cong (check_constraints H f v).
+Proof. apply cong_all. Qed.
+Lemma cong_unify f sub skb skw a b : cong (unify H f sub skb skw a b).
+Proof. apply cong_all. Qed.
+Lemma cong_bind_var f v t : cong (bind H f v t).
+Proof. apply cong_all. Qed.
+Lemma cong_above f v o : cong (above H f v o).
+Proof. apply cong_all. Qed.
+Lemma cong_below f v o : cong (below H f v o).
+Proof. apply cong_all. Qed.
+Lemma cong_fix_ty f pl t : cong (fix_ty H f pl t).
+Proof. apply cong_all. Qed.
+Lemma cong_fulfill f c : cong (fulfill H f c).
+Proof. apply cong_all. Qed.
+
+
+
+(* ------------------------------------------------------------------ *)
+(* one round from two related stores under two schedules                *)
+(* ------------------------------------------------------------------ *)
+Lemma with_sched_self s : with_sched s (sched s) = s.
+Proof. destruct s; reflexivity. Qed.
+
+Theorem round_rel (W : wf_hier H) f1 f2 v s1 s2 : eqr s1 s2 -> RoundPre H s2 v ->
+  match check_constraints H f1 v s1, check_constraints H f2 v s2 with
+  | MOk _ t1, MOk _ t2 => eqr t1 t2
+  | MOk _ _, MEr e _ => e = EFuel
+  | MEr e _, MOk _ _ => e = EFuel
+  | MEr _ _, MEr _ _ => True
+  end.
+Proof.
+  intros E P.
+  pose proof (cong_cc f1 v s1 _ (eqs_with_sched s1 s2 E)) as C.
+  pose proof (round_indep H W f1 f2 v s2 (sched s1) (sched s2) P) as R.
+  rewrite (with_sched_self s2) in R. unfold CR in C.
+  destruct (check_constraints H f1 v s1) as [u1 t1|e1 t1],
+           (check_constraints H f1 v (with_sched s2 (sched s1))) as [u' t'|e' t'],
+           (check_constraints H f2 v s2) as [u2 t2|e2 t2]; try contradiction; auto.
+  - destruct C as (_ & (C & _) & _). eapply eqr_trans; [exact C|apply eqk_eqr; exact R].
+  - congruence.
+Qed.
+
+Theorem round_rel_fuel (W : wf_hier H) f1 f2 v s1 s2 : eqr s1 s2 -> RoundPre H s2 v ->
+  5 * und s2 + 5 <= f1 -> 5 * und s2 + 5 <= f2 ->
+  match check_constraints H f1 v s1, check_constraints H f2 v s2 with
+  | MOk _ t1, MOk _ t2 => eqr t1 t2
+  | MEr e1 _, MEr e2 _ => e1 <> EFuel /\ e2 <> EFuel
+  | _, _ => False
+  end.
+Proof.
+  intros E P L1 L2.
+  pose proof (cong_cc f1 v s1 _ (eqs_with_sched s1 s2 E)) as C.
+  pose proof (round_indep_fuel H W f1 f2 v s2 (sched s1) (sched s2) P L1 L2) as R.
+  rewrite (with_sched_self s2) in R. unfold CR in C.
+  destruct (check_constraints H f1 v s1) as [u1 t1|e1 t1],
+           (check_constraints H f1 v (with_sched s2 (sched s1))) as [u' t'|e' t'],
+           (check_constraints H f2 v s2) as [u2 t2|e2 t2]; try contradiction; auto.
+  - destruct C as (_ & (C & _) & _). eapply eqr_trans; [exact C|apply eqk_eqr; exact R].
+  - subst e'. exact R.
+Qed.
 
 End Q.
